@@ -202,6 +202,42 @@ class ExternalCase(Case):
         return {}
 
 
+class FlagsCase(Case):
+    """The external wrapper must advertise exactly the capabilities of the wrapped in-process optimizer
+    (allow_nan, is_parallel): they decide how ropt treats failed evaluations and batches, hence whether the
+    external run can equal the in-process one."""
+
+    family = "external-process/capabilities"
+
+    def __init__(self, cid, method, parallel):
+        self.id, self.method, self.parallel = cid, method, parallel
+
+    def describe(self):
+        return f"external/{self.method} parallel={self.parallel}"
+
+    def inputs(self, env):
+        return {}
+
+    def run(self, env, inp):
+        import ropt.plugins.optimizer.external as X
+        from ropt.plugins import PluginManager
+        from .common import make_config
+
+        d = {"variables": {"initial_values": [0.0, 0.0], "lower_bounds": -1.0, "upper_bounds": 1.0},
+             "optimizer": {"method": f"external/{self.method}", "parallel": self.parallel}}
+        ext = X.ExternalOptimizer(make_config(d), lambda *a, **k: None)
+        d["optimizer"]["method"] = self.method
+        cfg = make_config(d)
+        inner = PluginManager().get_plugin("optimizer", self.method).create(cfg, lambda *a, **k: None)
+        return {"ext": (ext.allow_nan, ext.is_parallel), "inner": (inner.allow_nan, inner.is_parallel)}
+
+    def props(self, env, inp, oc):
+        if not oc.ok:
+            return [("no_internal_exception:" + type(oc.exc).__name__, SB(False))]
+        e, i = oc.value["ext"], oc.value["inner"]
+        return [("allow_nan_as_in_process", SB(bool(e[0]) == bool(i[0]))), ("is_parallel_as_in_process", SB(bool(e[1]) == bool(i[1])))]
+
+
 def build_cases(tier):
     cases = []
     k = 0
@@ -215,6 +251,9 @@ def build_cases(tier):
     add(nevals=1)
     add(nevals=2, error_at=1)
     add(nevals=2, error_at=0)
+    for method, par in (("slsqp", False), ("differential_evolution", False), ("differential_evolution", True), ("scipy/nelder-mead", False)):
+        k += 1
+        cases.append(FlagsCase(f"c20-{k:03d}", method, par))
     if tier == "thorough":
         add(nevals=4)
         add(nevals=4, error_at=2)
